@@ -1,6 +1,7 @@
 import BddVerif.Props.C05
 import BddVerif.Lemmas.AlgoEqLimit
 import BddVerif.Lemmas.AlgoEqDry
+import BddVerif.Lemmas.AlgoEq2Cmp
 #print axioms B.Props.C05.limit_spec
 #print axioms B.Props.C05.limit_spec_public
 #print axioms B.Props.C05.limit_some_iff
@@ -23,3 +24,6 @@ import BddVerif.Lemmas.AlgoEqDry
 #print axioms B.AlgoDL.estimated_apply_complexity_eq_model_driver
 #print axioms B.AlgoDL.Bdd_check_binary_op_eq_model
 #print axioms B.AlgoDL.estimated_apply_complexity_panic_flip
+#print axioms B.AlgoEq2Cmp.Bdd_cmp_implies_eq_model
+#print axioms B.AlgoEq2Cmp.cmp_implies_spec
+#print axioms B.AlgoEq2Cmp.lim_cmpImplies_eq
